@@ -58,7 +58,7 @@ static void dest(void * p, void * priv)
 /* header `samecb 1`: vectors with both callbacks get ONE function in both roles (the header allows it: "any or all
  * may be NULL", nothing says they differ).  It tells its role from the slot: at or above the element count the
  * vector had when the call started it is constructing, below it is destroying. */
-static int samecb;
+static int samecb, atdiscard;
 static size_t cb_oc;
 static void both(void * p, void * priv)
 {
@@ -145,7 +145,7 @@ static void run_case(const struct h_case * c)
     int i, k, started = 0;
     struct { size_t e; int c, d; } shape[MAXV];
 
-    nvec = 0; samecb = 0;
+    nvec = 0; samecb = 0; atdiscard = 0;
     ha_reset();
     for (i = 0; i < c->nlines; i++) {
         const struct h_line * l = &c->lines[i];
@@ -171,6 +171,7 @@ static void run_case(const struct h_case * c)
         }
         if (h_weq(l, 0, "failfrom")) { ha_fail_from = (long)h_int(l, 1); continue; }
         if (h_weq(l, 0, "samecb")) { samecb = a; continue; }
+        if (h_weq(l, 0, "atdiscard")) { atdiscard = a; continue; }
         if (!started) {
             for (k = 0; k < nvec; k++) {
                 const int same = samecb && shape[k].c && shape[k].d;
@@ -194,8 +195,15 @@ static void run_case(const struct h_case * c)
             ha_active = 1; cstl_vector_clear(cur); ha_active = 0;
         } else if (h_weq(l, 0, "at")) {
             const void * p;
+            if (atdiscard && (size_t)n >= cur->count) {
+                /* header `atdiscard 1`: a caller that only validates the index and discards the address; the call must
+                 * still be made and must abort (a declaration that lets the compiler drop it would show here) */
+                ha_active = 1; (void)cstl_vector_at_const(cur, (size_t)n); ha_active = 0;
+                XLOG(" %zu", (size_t)n * cur->elem.size);
+            } else {
             ha_active = 1; p = cstl_vector_at_const(cur, (size_t)n); ha_active = 0;
             XLOG(" %zu", (size_t)((uintptr_t)p - (uintptr_t)cur->elem.base));
+            }
         } else if (h_weq(l, 0, "put")) {
             void * p;
             ha_active = 1; p = cstl_vector_at(cur, (size_t)n); ha_active = 0;
